@@ -31,6 +31,29 @@ func encMatch(e rv.Enc, word *smt.Term) *smt.Term {
 func (c *Ctx) installDecodeBuiltins(ev *spec.Eval) {
 	B := ev.Builtins
 	p := ev.P
+	// model_valid(ins): what model.Instruction.Validate demands
+	B["model_valid"] = func(ev *spec.Eval, a []ast.Expr) spec.TV {
+		insT := c.pkgType("mltwist/pkg/model", "Instruction")
+		st, ok := ev.Eval(a[0]).V.(*sx.Struct)
+		if !ok {
+			return spec.TV{V: smt.False}
+		}
+		cond := smt.And(smt.BVUlt(st.F[fieldIdx(insT, "Type")].(*smt.Term), smt.BVU(8, 64)), smt.Not(smt.Eq(st.F[fieldIdx(insT, "ByteLen")].(*smt.Term), smt.BVU(0, 64))))
+		if d, ok := st.F[fieldIdx(insT, "Details")].(sx.Iface); !ok || d.T == nil {
+			p.Ghost["detail"] = "platform details not set"
+			return spec.TV{V: smt.False}
+		}
+		efs := st.F[fieldIdx(insT, "Effects")].(sx.Slice)
+		if n, _ := efs.Len.Uint64(); n > 0 {
+			for _, e := range p.SliceElems(efs) {
+				if i, ok := e.(sx.Iface); !ok || i.T == nil {
+					p.Ghost["detail"] = "nil effect"
+					return spec.TV{V: smt.False}
+				}
+			}
+		}
+		return spec.TV{V: cond}
+	}
 	B["word32"] = func(ev *spec.Eval, a []ast.Expr) spec.TV {
 		sl := ev.Eval(a[0]).V.(sx.Slice)
 		els := p.SliceElems(sl)
